@@ -16,7 +16,8 @@ import (
 // every outcome into (class, data, bytes left) and never let a panic escape.
 
 // readerKind selects the io.Reader the decoders are given: 0 = *bytes.Reader, 1 = *bytes.Buffer
-// (what the bus passes: bytes.NewBuffer(payload)), 2 = a reader that returns one byte per Read.
+// (what the bus passes: bytes.NewBuffer(payload)), 2 = a reader that returns one byte per Read,
+// 3 = a reader that returns its last bytes together with io.EOF.
 var readerKind = 0
 
 type lenReader interface {
@@ -34,8 +35,22 @@ func (o oneByteReader) Read(p []byte) (int, error) {
 }
 func (o oneByteReader) Len() int { return o.r.Len() }
 
+// dataErrReader returns the last bytes together with io.EOF (as testing/iotest.DataErrReader)
+type dataErrReader struct{ r *bytes.Reader }
+
+func (d dataErrReader) Read(p []byte) (int, error) {
+	n, err := d.r.Read(p)
+	if err == nil && d.r.Len() == 0 {
+		err = io.EOF
+	}
+	return n, err
+}
+func (d dataErrReader) Len() int { return d.r.Len() }
+
 func mkReader(input []byte) lenReader {
 	switch readerKind {
+	case 3:
+		return dataErrReader{bytes.NewReader(input)}
 	case 1:
 		return bytes.NewBuffer(append([]byte(nil), input...))
 	case 2:
